@@ -274,7 +274,9 @@ CONSTANTS Sizes,       \* block sizes offered, subset of 1..4
           Perms, UnitKinds,   \* subsets of {"id","rev","cyc"}, {"one","alt","gau"}
           Sigmas,      \* values of E_shift offered (0 = option absent)
           GsVals, MaxGsRows,  \* gram_schmidt cases: integer coefficients offered, number of vectors
-          DMode,       \* "free": eigenvalues chosen from DVals/GVals; "ladder": consecutive integers -3, -2, ... (all distinct)
+          DMode,       \* "free": eigenvalues chosen from DVals/GVals; "ladder": consecutive integers -3, -2, ... (all distinct);
+                       \* "dyadic": ill-conditioned, eigenvalues 2^-e with e from 0..26 (D holds 2^(26-e), the block carries the
+                       \*           common denominator ds = 2^26; at most 8 eigenvalues)
           Kinds        \* case kinds generated: subset of {"lanczos","evo","arnoldi","gmres","gs"}
 
 \* definitions a cfg can refer to with  Const <- Name  (cfg files cannot hold negative literals / tuples)
@@ -372,6 +374,14 @@ SortByKey(S, dummy) == IF S = {} THEN <<>> ELSE
             LET x == CHOOSE x \in S : \A y \in S : x = y \/ x.key < y.key \/ (x.key = y.key /\ CLess(x.lam, y.lam))
             IN <<x>> \o SortByKey(S \ {x}, dummy)
 
+\* ---- ill-conditioned but exact: dyadic spectra (all numbers stay below 2^31) ----
+RECURSIVE Pow2(_)
+Pow2(e) == IF e = 0 THEN 1 ELSE 2 * Pow2(e - 1)
+DyE == 26                                             \* cond(A) = 2^26 = 6.7e7
+DyExp1 == <<0, 26, 9, 17, 4, 22, 13, 20>>
+DyExp2 == <<0, 26, 11, 15, 6, 22, 13, 20>>
+DScale == IF DMode = "dyadic" THEN Pow2(DyE) ELSE 1
+
 \* ---- the case builder ----------------------------------------------------------
 (* The choices (block headers, eigenvalues, sector, coefficients, kind of case, options) are made one
    at a time by cheap actions; the single deterministic action Build then computes the operator, the
@@ -393,8 +403,11 @@ BeginBlock == /\ pl.stage = "blk" /\ Len(pl.hdrs) < MaxBlocks
 \* eigenvalues of the block, one at a time
 SetD == /\ pl.stage = "D"
         /\ LET nb == Len(pl.hdrs)
-               ladder == CInt(HdrDim(pl.hdrs) - pl.hdrs[nb].n + Len(pl.hdrs[nb].D) - 3)
-           IN \E d \in (IF DMode = "ladder" THEN {ladder} ELSE IF pl.fl = "herm" THEN {CInt(x) : x \in DVals} ELSE GVals) :
+               pos == HdrDim(pl.hdrs) - pl.hdrs[nb].n + Len(pl.hdrs[nb].D) + 1       \* position of this eigenvalue in the operator
+               ladder == CInt(pos - 4)
+               dyadic == {CInt(Pow2(DyE - DyExp1[pos]))} \cup (IF pos \in 3..5 THEN {CInt(Pow2(DyE - DyExp2[pos]))} ELSE {})
+           IN \E d \in (IF DMode = "ladder" THEN {ladder} ELSE IF DMode = "dyadic" THEN dyadic
+                        ELSE IF pl.fl = "herm" THEN {CInt(x) : x \in DVals} ELSE GVals) :
                 LET D == Append(pl.hdrs[nb].D, d)
                 IN pl' = [pl EXCEPT !.hdrs[nb].D = D, !.stage = IF Len(D) < pl.hdrs[nb].n THEN "D" ELSE "blk"]
 \* the operator is complete: choose the charge sector of the start vector
@@ -423,6 +436,9 @@ OptArnoldi == /\ pl.stage = "opt" /\ "arnoldi" \in Kinds
 OptGmres   == /\ pl.stage = "opt" /\ "gmres" \in Kinds
               /\ \A i \in 1..Len(pl.idx) : LamOf(pl.hdrs, pl.idx[i]) # C0           \* A non-singular on the sector
               /\ \E x0k \in {"zero", "half"} : pl' = [pl EXCEPT !.stage = "build"] @@ [kind |-> "gmres", x0k |-> x0k]
+\* GMRES on an ill-conditioned operator: right-hand side b = v with components on all eigenvectors
+OptGmresIll == /\ pl.stage = "opt" /\ "gmresill" \in Kinds /\ DMode = "dyadic"
+               /\ pl' = [pl EXCEPT !.stage = "build"] @@ [kind |-> "gmresill"]
 GsCols(m) == Min(m, 3)
 OptGsBegin == /\ pl.stage = "opt" /\ "gs" \in Kinds
               /\ pl' = [pl EXCEPT !.stage = "gsrows"] @@ [kind |-> "gs", C |-> <<>>]
@@ -509,6 +525,11 @@ ExpGmres(bs, comps, x0k) ==
         x0 |-> BVSum([i \in 1..m |-> IF i \in inx0 THEN comps[i].c ELSE BVZero(bs)], BVZero(bs)),
         b  |-> BVSum([i \in 1..m |-> BVScale(comps[i].lam, comps[i].c)], BVZero(bs))]
 
+\* A x = v  with  A = sum_lam (lam / 2^26) P_lam,  lam = 2^(26 - e):  x = sum_lam 2^e c_lam  is an integer vector
+ExpGmresIll(bs, comps) ==
+    [mg |-> Len(comps),
+     xs |-> BVSum([i \in 1..Len(comps) |-> BVScale(CInt(DScale \div comps[i].lam[1]), comps[i].c)], BVZero(bs))]
+
 \* gram_schmidt on integer combinations  vec_r = sum_j C[r][j] c_j  of the (linearly independent) components:
 \* vector r survives iff row r of C is not in the span of the rows before it
 RowReduce(r, basis) ==       \* fraction-free reduction of the integer row r against the reduced rows in basis
@@ -537,13 +558,14 @@ Build ==
            base  == [stage |-> "case", fl |-> pl.fl, hdrs |-> pl.hdrs, q0 |-> pl.q0, idx |-> pl.idx, a |-> pl.a, m |-> pl.m,
                      kind |-> pl.kind,
                      blocks |-> TLCEval([b \in 1..Len(full) |-> [q |-> full[b].q, n |-> full[b].n, s |-> full[b].s, A |-> full[b].A]]),
-                     comps |-> comps, nv2 |-> nv2,
+                     comps |-> comps, nv2 |-> nv2, ds |-> DScale,    \* the operator is  A / (s ds)
                      v |-> BVSum([i \in 1..Len(comps) |-> comps[i].c], BVZero(full))]
        IN pl' = base @@
             (IF pl.kind = "lanczos" THEN [sigma |-> pl.sigma, nO |-> pl.nO] @@ ExpLanczos(full, comps, nv2, pl.sigma, pl.nO)
              ELSE IF pl.kind = "evo" THEN [sigma |-> pl.sigma] @@ ExpEvo(full, comps, pl.sigma)
              ELSE IF pl.kind = "arnoldi" THEN [sigma |-> pl.sigma] @@ ExpArnoldi(comps, pl.sigma)
              ELSE IF pl.kind = "gmres" THEN [x0k |-> pl.x0k] @@ ExpGmres(full, comps, pl.x0k)
+             ELSE IF pl.kind = "gmresill" THEN ExpGmresIll(full, comps)
              ELSE [C |-> pl.C] @@ ExpGs(full, comps, pl.C))
 
 PLUnch == UNCHANGED cfvars
@@ -555,13 +577,14 @@ DoOptLanczos == OptLanczos /\ PLUnch
 DoOptEvo     == OptEvo /\ PLUnch
 DoOptArnoldi == OptArnoldi /\ PLUnch
 DoOptGmres   == OptGmres /\ PLUnch
+DoOptGmresIll == OptGmresIll /\ PLUnch
 DoOptGsBegin == OptGsBegin /\ PLUnch
 DoOptGsRow   == OptGsRow /\ PLUnch
 DoOptGsEnd   == OptGsEnd /\ PLUnch
 DoBuild      == Build /\ PLUnch
 
 NextPL == \/ DoBeginBlock \/ DoSetD \/ DoEndOp \/ DoSetA \/ DoOptLanczos \/ DoOptEvo \/ DoOptArnoldi
-          \/ DoOptGmres \/ DoOptGsBegin \/ DoOptGsRow \/ DoOptGsEnd \/ DoBuild
+          \/ DoOptGmres \/ DoOptGmresIll \/ DoOptGsBegin \/ DoOptGsRow \/ DoOptGsEnd \/ DoBuild
 SpecPL == InitPL /\ [][NextPL]_<<cfvars, pl>>
 
 \* ---- certificates: the planted data are what they claim to be (evaluated on every finished case) ---
@@ -599,4 +622,8 @@ CaseRight ==
                                    /\ \A i \in 1..(pl.m - 1) : pl.ritz[wh][i].key <= pl.ritz[wh][i + 1].key)
         /\ (pl.kind = "gs" => Len(pl.kept) <= GsCols(pl.m))
         /\ (pl.kind = "gmres" => pl.mg >= 0 /\ pl.mg <= pl.m)
+        /\ (pl.kind = "gmresill" =>
+              /\ pl.mg = pl.m /\ pl.ds = Pow2(DyE)
+              /\ \A i \in 1..pl.m : pl.comps[i].lam[2] = 0 /\ pl.comps[i].lam[1] > 0 /\ pl.ds % pl.comps[i].lam[1] = 0
+              /\ pl.xs = BVSum([i \in 1..pl.m |-> BVScale(CInt(pl.ds \div pl.comps[i].lam[1]), pl.comps[i].c)], BVZero(pl.blocks)))
 =============================================================================
